@@ -192,9 +192,9 @@ def run(tier):
     total = len(cases)
     if tier == "quick" and len(cases) > 1600:
         deep = [c for c in cases if c["lvl"] > 1]
-        step = max(1, len(deep) // 900)
+        step = max(1, len(deep) // 450)
         lvl1 = [c for c in cases if c["lvl"] <= 1]
-        s1 = max(1, len(lvl1) // 700)
+        s1 = max(1, len(lvl1) // 400)
         cases = lvl1[common.seed() % s1::s1] + deep[common.seed() % step::step]
     res = common.pmap(observe, cases, chunksize=4)
     viol = [v for r in res for v in r]
